@@ -23,7 +23,7 @@ ASSUMPTIONS = [
     "lists are used with the condition/action family of their own type; a regex list has one member (other uses are outside the domain)",
     "reference readers of the three vendors' policy / list syntaxes are in this module (namespaces per list kind)",
 ]
-FLOORS = {"quick": {"generator_runs": 2000, "policy_runs": 500, "refs_checked": 1000, "constructs_rejected": 100, "actions_segmented": 1000, "combined_operation_actions": 100, "wildcard_only_as_path_filter_refs": 50, "shared_policy_inputs_checked": 800, "reused_generator_objects": 1500, "reused_generator_objects_after_a_refused_run": 100, "annotated_runs": 1500, "cases_with_included_route_maps": 800, "prefix_matches_with_a_zero_bound": 150},
+FLOORS = {"quick": {"generator_runs": 2000, "policy_runs": 500, "refs_checked": 1000, "constructs_rejected": 100, "actions_segmented": 1000, "combined_operation_actions": 100, "wildcard_only_as_path_filter_refs": 50, "shared_policy_inputs_checked": 800, "reused_generator_objects": 1500, "reused_generator_objects_after_a_refused_run": 100, "annotated_runs": 1500, "cases_with_included_route_maps": 800, "prefix_matches_with_a_zero_bound": 150, "route_maps_applied_three_times": 2000},
           "thorough": {"generator_runs": 100000, "policy_runs": 25000, "refs_checked": 50000, "constructs_rejected": 5000, "actions_segmented": 50000, "combined_operation_actions": 5000, "wildcard_only_as_path_filter_refs": 2500, "shared_policy_inputs_checked": 40000}}
 VENDORS = ["huawei", "arista", "cumulus"]
 MODELS = {"huawei": ("Huawei CE6870-48S6CQ-EI", "VRP V200R001C00SPC700"), "arista": ("Arista DCS-7368", "EOS 4.29.9.1M"),
@@ -186,6 +186,8 @@ def build_routemap(program, nested=False):
     rm = RouteMap()
 
     def make(pol):
+        kept = {}      # conditions built once and reused by every run of the handler (the "reuse conditions" way of writing policies)
+
         def handler(device, route):
             for st in pol["stmts"]:
                 conds = []
@@ -207,6 +209,14 @@ def build_routemap(program, nested=False):
                     elif c[0] == "simple":
                         fld = getattr(R, c[1])
                         conds.append(fld.lt(c[2]) if c[1] == "local_pref" else fld.eq(c[2]))
+                if len(pol["stmts"]) % 2 == 0 and len(conds) >= 2:
+                    # the first condition lives outside the handler as an and-condition of its own; the others are and-ed to it on every run
+                    from annet.rpl.condition import AndCondition
+                    first = kept.setdefault(st["number"], AndCondition(conds[0]))
+                    combined = first
+                    for c_ in conds[1:]:
+                        combined = combined & c_
+                    conds = [combined]
                 with route(*conds, number=st["number"], name=st["name"]) as rule:
                     for a in st["acts"]:
                         if a[0] == "comm":
@@ -660,6 +670,21 @@ def check_case(seed, acc):
             acc.violation("C14/%s/undefined-reference/%s" % (vendor, missing[0][0]), "a policy statement refers to a named list that the matching list generator does not define under that name",
                           dict(w, missing=[list(m) for m in missing], defined=sorted(map(list, defs))[:30]))
             return w
+    # "fed the same inputs": every generator asks the route map for the policies itself, so running the handlers again gives the same policies
+    # (or the same refusal) as the first time
+    rm_ = build_routemap(program, nested)
+    shots = []
+    for _ in range(3):
+        try:
+            shots.append(("ok", policies_snapshot(rm_.apply(dev))))
+        except Exception as e:
+            shots.append(("error", type(e).__name__, str(e)[:200]))
+    acc.count("route_maps_applied_three_times")
+    if shots[1] != shots[0] or shots[2] != shots[0]:
+        k_ = 1 if shots[1] != shots[0] else 2
+        acc.violation("C14/%s/handlers-give-other-policies-on-a-later-run" % vendor, "running the same policy handlers again for the same device gives other policies (or a refusal) than the first run: the generators are not fed the same inputs",
+                      dict(w, run=k_ + 1, first=[shots[0][0], shots[0][1][:2] if shots[0][0] == "ok" else list(shots[0][1:])], later=[shots[k_][0], shots[k_][1][:2] if shots[k_][0] == "ok" else list(shots[k_][1:])]))
+        return w
     if vendor != "cumulus":
         bad = check_reuse_and_annotate(seed, vendor, program, ents, dev, acc, w)
         if bad:
